@@ -231,6 +231,19 @@ def _array_pass(v, u, w, xs, err):
             if len(got) != len(ref) or not all(lclose(g, r) or (g != g and r != r) for g, r in zip(got, ref)):
                 v.fail("array-value", f"Quantity({form} {xs!r},{u!r}).{name}({w!r}) = {got!r}, the scalar quantities give {ref!r}")
                 return True
+            if name == "value":
+                # the array is only read by the query: asked again it answers the same, and holds what it held
+                try:
+                    again = np.atleast_1d(np.asarray(q.value(w), dtype=float)).tolist()
+                    own = np.atleast_1d(np.asarray(q.value(), dtype=float)).tolist()
+                except Exception as e:
+                    v.fail("array-raised", f"Quantity({form} {xs!r},{u!r}).value({w!r}) asked a second time raised {e!r}")
+                    return True
+                if not all(lclose(g, r) or (g != g and r != r) for g, r in zip(again, ref)) or \
+                        not all(lclose(g, h) for g, h in zip(own, held)):
+                    v.fail("value-repeat", f"q = Quantity({form} {xs!r},{u!r}); q.value({w!r}) = {got!r}, asked again {again!r}; "
+                                           f"q.value() = {own!r} afterwards")
+                    return True
     v.label("array_forms")
     return False
 
